@@ -90,6 +90,17 @@ pub fn run(ctx: &Ctx, out: &mut Out, prop: &str) {
         // boundary values half of the time, the whole documented range otherwise
         cfg.batch_size = if rng.chance(1, 2) { *rng.pick(&[1u8, 2, 7, 63, 64]) } else { rng.range(1, 64) as u8 };
         cfg.fault_percentage = if rng.chance(1, 2) { *rng.pick(&[0u8, 1, 25, 50]) } else { rng.range(0, 50) as u8 };
+        // optional features on a share of the servers: per-client statistics with a fast status
+        // timer, and a health-check listener (never connected to here)
+        if gi % 8 == 3 {
+            cfg.client_stats = true;
+            cfg.status_interval = std::time::Duration::from_secs(1);
+            out.obs("servers_with_client_stats", 1);
+        }
+        if gi % 8 == 6 {
+            cfg.health_check_port = Some(crate::procs::free_port(true));
+            out.obs("servers_with_health_port", 1);
+        }
         let Ok(mut d) = Driver::new(cfg.clone(), 8) else {
             out.inconclusive("server start failed");
             continue;
